@@ -229,7 +229,8 @@ impl Prop for Config {
     fn strategy(&self, tier: Tier) -> BoxedStrategy<ConfigAny> {
         let medium = (crate::checks::metamorphic::meta_strategy(tier), any::<bool>(), vec(any::<u8>(), 3..=6))
             .prop_map(|(meta, kissat, picks)| ConfigAny::Medium { meta, kissat, picks });
-        let matrix = (gen::graph(8), 0u8..3, 0u8..7, any::<u16>(), any::<bool>())
+        // the semantics whose encoder selection has special cases on the command line get more weight
+        let matrix = (gen::graph(8), 0u8..3, prop_oneof![5 => 0u8..7, 3 => Just(5u8), 2 => Just(4u8)], any::<u16>(), any::<bool>())
             .prop_map(|(g, q, sem, arg, cert)| ConfigAny::CliMatrix { g, q, sem, arg, cert });
         // query scripts on ONE solver object over an irregular graph of 14-24 arguments (embedded backend,
         // plain or behind the model chooser)
@@ -237,7 +238,7 @@ impl Prop for Config {
             .prop_map(|(gc, k, enc_pick, backend, script)| {
                 ConfigAny::Small(ConfigCase { gc, kind: KINDS[k], enc_pick, backend, script: script.into_iter().map(|(q, arg, cert, twice)| Step { q, arg, cert, twice }).collect() })
             });
-        prop_oneof![250 => self.small_strategy(tier).prop_map(ConfigAny::Small), 1 => medium, 2 => matrix, 4 => med_script].boxed()
+        prop_oneof![250 => self.small_strategy(tier).prop_map(ConfigAny::Small), 1 => medium, 4 => matrix, 4 => med_script].boxed()
     }
     fn max_shrink_iters(&self) -> u32 {
         3_000
